@@ -1,9 +1,14 @@
 """C19 catalogue: one representative instance of every operator class (unbatched + batched), the
 second-operand shape kinds, and the implementation / torch verdict functions.  Purely discrete:
 a verdict is `("ok", shape_tuple)` or `("raise", exception_class_name)`."""
-import itertools
+import fnmatch
+import json
+import os
+import sys
 
 import torch
+
+from ..extract import c19_guards
 
 F64 = torch.float64
 
@@ -113,7 +118,7 @@ def instances(rng, batch=(), n=3, extended=False):
 
     def kernel():
         x1 = _ival(rng, b + (n, 2))
-        return KLO.KernelLinearOperator(x1, x1, lambda a, c, **kw: a @ c.transpose(-1, -2) + torch.eye(n, dtype=F64) * 40)
+        return KLO.KernelLinearOperator(x1, x1, lambda a, c, **kw: a @ c.transpose(-1, -2))
     add("Kernel", kernel)
     return out
 
@@ -130,7 +135,8 @@ def _prod(t):
 # --------------------------------------------------------------------------------------------------
 def matmul_kinds(shape, side="right"):
     """shapes of T for op @ T (side=right; inner dim = n, T is (.., n, p)) or T @ op (side=left; inner
-    dim = m, T is (.., p, m)).  -> list of (kind, shape)"""
+    dim = m, T is (.., p, m)).  -> list of (kind, shape).  Kind families: ok-* (torch accepts),
+    inner1-* (size-1 inner dim), innerX-* (wrong inner dim), rank0, batchX-* (non-broadcastable batch)."""
     *B, m, n = shape
     B = tuple(B)
     k = n if side == "right" else m
@@ -140,32 +146,32 @@ def matmul_kinds(shape, side="right"):
     def mat(batch, inner, cols=p):
         return tuple(batch) + ((inner, cols) if side == "right" else (cols, inner))
     res = [
-        ("mat", mat((), k)),
-        ("vec", (k,)),
-        ("mat-p1", mat((), k, 1)),
-        ("mat-batch-same", mat(B, k)),
-        ("mat-batch-extra", mat((2,) + B, k)),
-        ("mat-batch-one", mat((1,) * (len(B) + 1), k)),
-        ("bad-inner-plus", mat((), k + 1)),
-        ("bad-inner-minus", mat((), k - 1)) if k > 1 else None,
-        ("bad-inner-one", mat((), 1)) if k != 1 else None,
-        ("bad-inner-one-p1", mat((), 1, 1)) if k != 1 else None,
-        ("bad-vec-plus", (k + 1,)),
-        ("bad-vec-one", (1,)) if k != 1 else None,
-        ("bad-scalar", ()),
-        ("bad-transposed", mat((), p, k)) if k != p else None,
-        ("bad-batch-inner", mat((2,) + B, k + 1)),
-        ("bad-inner-other", mat((), oth)) if oth != k else None,
-        ("bad-vec-other", (oth,)) if oth != k else None,
-        ("bad-inner-double", mat((), 2 * k)),
-        ("bad-inner-zero", mat((), 0)),
+        ("ok-mat", mat((), k)),
+        ("ok-vec", (k,)),
+        ("ok-matp1", mat((), k, 1)),
+        ("ok-batch-same", mat(B, k)) if B else None,
+        ("ok-batch-extra", mat((2,) + B, k)),
+        ("ok-batch-one", mat((1,) * (len(B) + 1), k)),
+        ("innerX-plus", mat((), k + 1)),
+        ("innerX-minus", mat((), k - 1)) if k > 2 else None,
+        ("inner1-mat", mat((), 1)) if k != 1 else None,
+        ("inner1-matp1", mat((), 1, 1)) if k != 1 else None,
+        ("innerX-vecplus", (k + 1,)),
+        ("inner1-vec", (1,)) if k != 1 else None,
+        ("rank0", ()),
+        ("innerX-transposed", mat((), p, k)) if k != p else None,
+        ("innerX-batch", mat((2,) + B, k + 1)),
+        ("innerX-other", mat((), oth)) if oth != k else None,
+        ("innerX-vecother", (oth,)) if oth != k else None,
+        ("innerX-double", mat((), 2 * k)),
+        ("innerX-zero", mat((), 0)),
     ]
     if B:
         res += [
-            ("bad-batch-mismatch", mat((B[0] + 1,) + B[1:], k)),
-            ("bad-batch-mismatch-inner-one", mat((B[0] + 1,) + B[1:], 1)),
-            ("mat-batch-bcast", mat((1,) + B[1:], k)),
-            ("bad-vec-batchsize", (B[0],)) if B[0] != k else None,
+            ("batchX-mismatch", mat((B[0] + 1,) + B[1:], k)),
+            ("inner1-batchX", mat((B[0] + 1,) + B[1:], 1)) if k != 1 else None,
+            ("ok-batch-bcast", mat((1,) + B[1:], k)),
+            ("innerX-vecbatch", (B[0],)) if B[0] != k else None,
         ]
     return [r for r in res if r is not None]
 
@@ -199,8 +205,8 @@ def diag_kinds(shape):
     *B, m, n = shape
     B = tuple(B)
     res = [("full", B + (n,)), ("vec", (n,)), ("one", (1,)), ("scalar0d", ()), ("batch-one", B + (1,)),
-           ("bad-plus", (n + 1,)), ("bad-minus", (n - 1,)) if n > 2 else None, ("bad-extra-batch", (2,) + B + (n,)),
-           ("bad-extra-batch-one", (2,) + B + (1,)), ("bad-matrix", (n, n)) if not B else None]
+           ("bad-plus", (n + 1,)), ("bad-minus", (n - 1,)) if n > 2 else None, ("extra-batch", (2,) + B + (n,)),
+           ("extra-batch-one", (2,) + B + (1,)), ("matrix-as-batch", (n, n)) if not B else None]
     if B:
         res += [("bad-batch-mismatch", (B[0] + 1,) + B[1:] + (n,)), ("bad-batch-mismatch-one", (B[0] + 1,) + B[1:] + (1,))]
     return [r for r in res if r is not None]
@@ -211,7 +217,7 @@ def expand_kinds(shape):
     B = tuple(B)
     res = [("same", B + (m, n)), ("extra", (2,) + B + (m, n)), ("minus1", B + (-1, -1)), ("extra-minus1", (2,) + B + (-1, -1)),
            ("bad-matrix", B + (m + 1, n)), ("bad-matrix-cols", B + (m, n + 2)), ("bad-short", (n,)), ("bad-missing-batch", (m, n)) if B else None,
-           ("bad-mixed-minus1", B + (-1, n)), ("bad-new-minus1", (-1,) + B + (m, n))]
+           ("mixed-minus1", B + (-1, n)), ("bad-new-minus1", (-1,) + B + (m, n))]
     if B:
         res += [("bad-batch-shrink", (B[0] + 1,) + B[1:] + (m, n)), ("bad-batch-to-one", (1,) + B[1:] + (m, n)),
                 ("batch-minus1", (-1,) + B[1:] + (m, n))]
@@ -221,14 +227,20 @@ def expand_kinds(shape):
 # --------------------------------------------------------------------------------------------------
 # verdicts
 # --------------------------------------------------------------------------------------------------
-def verdict(f):
+def verdict(f, densify=True):
+    """("ok", shape) / ("raise", ExcName).  Operator results are evaluated (`to_dense`) because shapes
+    and sums are lazy: an invalid operator that only fails when first used counts as a raise."""
     try:
         r = f()
+        if isinstance(r, tuple) and not isinstance(r, torch.Size):
+            r = r[0]
+        shp = tuple(r.shape)
+        if densify and not torch.is_tensor(r):
+            d = r.to_dense()
+            if tuple(d.shape) != shp:
+                return ("ok", ("inconsistent", shp, tuple(d.shape)))
     except Exception as e:  # noqa
         return ("raise", type(e).__name__)
-    if isinstance(r, tuple) and r and not isinstance(r, torch.Size):
-        r = r[0]
-    shp = tuple(r.shape)
     return ("ok", shp)
 
 
@@ -236,3 +248,459 @@ def ones(shape, rng=None):
     if rng is None:
         return torch.ones(tuple(shape), dtype=F64)
     return _ival(rng, tuple(shape), 1, 3)
+
+
+# --------------------------------------------------------------------------------------------------
+# index cases
+# --------------------------------------------------------------------------------------------------
+def index_cases(shape):
+    """-> (kind, index-tuple-as-json-able list).  ints: every position × {size, size+1, -size-1} (invalid)
+    and {0, size-1} (+ -size, -1 in batch positions) (valid); tensors: a 2-element index whose second
+    entry is out of range / in range, alone (`_getitem` path) and with tensors in every other position
+    (`_get_indices` path)."""
+    nd = len(shape)
+    res = []
+    for pos in range(nd):
+        size = shape[pos]
+        pname = ["row", "col"][pos - (nd - 2)] if pos >= nd - 2 else f"batch{pos}"
+        ints = [("eq-size", size), ("gt-size", size + 1), ("lt-neg", -size - 1), ("ok-zero", 0), ("ok-last", size - 1)]
+        if pos < nd - 2:
+            ints += [("ok-negsize", -size), ("ok-neg1", -1)]
+        for vname, v in ints:
+            idx = [":"] * nd
+            idx[pos] = v
+            res.append((f"int/{pname}/{vname}", idx))
+        for vname, v in [("eq-size", size), ("lt-neg", -size - 1), ("ok-last", size - 1)]:
+            idx = [":"] * nd
+            idx[pos] = [0, v]
+            res.append((f"tensor1/{pname}/{vname}", idx))
+            idx = [[0, 0] for _ in range(nd)]
+            idx[pos] = [0, v]
+            res.append((f"tensorall/{pname}/{vname}", idx))
+    return res
+
+
+def mk_index(idx):
+    return tuple(slice(None) if i == ":" else (torch.tensor(i) if isinstance(i, list) else i) for i in idx)
+
+
+# --------------------------------------------------------------------------------------------------
+# one case = (class key, batch, op, kind, operand description) -> impl verdict, torch verdict, model line
+# --------------------------------------------------------------------------------------------------
+MM_OPS = ["matmul", "rmatmul", "solve", "inv_quad", "iql", "iql-cg", "matmul-Op"]
+EW_OPS = ["add-T", "sub-T", "mul-T", "add-Op", "mul-Op", "radd-T"]
+NONPSD = {"Permutation", "TransposePermutation", "Kernel", "Triangular", "KroneckerTriangular", "Matmul", "Zero", "Root", "LowRankRoot", "Mul"}
+
+
+def shp(t):
+    return ",".join(str(int(x)) for x in t) if len(t) else "-"
+
+
+class Runner:
+    def __init__(self, definers_matmul, mro_definer):
+        self.mm_def = definers_matmul      # class name -> definer of matmul (from the translator)
+        self.mro_definer = mro_definer     # (cls, method) -> defining class name at run time
+
+    def run_case(self, op, D, opname, T_shape, debug, idx=None, others=None):
+        """returns impl verdict, spec verdict"""
+        import linear_operator
+        from linear_operator import settings
+        from linear_operator.operators import DenseLinearOperator
+        shape = tuple(op.shape)
+        sq = shape[-1] == shape[-2]
+        T = ones(T_shape) if T_shape is not None and opname not in ("expand",) else None
+
+        def quad(R):
+            if T.dim() > 1:
+                return (T * R).sum(-2).sum(-1)
+            return (T * R).sum(-1)
+
+        def need_sq():
+            if not sq:
+                raise RuntimeError("non-square")
+        if opname == "matmul":
+            f, g = (lambda: op @ T), (lambda: D @ T)
+        elif opname == "matmul-Op":
+            f, g = (lambda: op @ DenseLinearOperator(T)), (lambda: D @ T)
+        elif opname == "rmatmul":
+            f, g = (lambda: T @ op), (lambda: T @ D)
+        elif opname == "solve":
+            f, g = (lambda: op.solve(T)), (lambda: (need_sq(), D @ T)[1])
+        elif opname == "inv_quad":
+            f, g = (lambda: op.inv_quad(T)), (lambda: (need_sq(), quad(D @ T))[1])
+        elif opname == "iql":
+            f, g = (lambda: op.inv_quad_logdet(T, logdet=True)[0]), (lambda: (need_sq(), quad(D @ T))[1])
+        elif opname == "iql-cg":
+            def f():
+                with settings.max_cholesky_size(0), settings.num_trace_samples(2), \
+                        settings.max_preconditioner_size(0):
+                    return op.inv_quad_logdet(T, logdet=True)[0]
+            g = lambda: (need_sq(), quad(D @ T))[1]
+        elif opname == "add-T":
+            f, g = (lambda: op + T), (lambda: D + T)
+        elif opname == "radd-T":
+            f, g = (lambda: T + op), (lambda: T + D)
+        elif opname == "sub-T":
+            f, g = (lambda: op - T), (lambda: D - T)
+        elif opname == "mul-T":
+            f, g = (lambda: op * T), (lambda: D * T)
+        elif opname == "add-Op":
+            f, g = (lambda: op + DenseLinearOperator(T)), (lambda: D + T)
+        elif opname == "mul-Op":
+            f, g = (lambda: op * DenseLinearOperator(T)), (lambda: D * T)
+        elif opname == "add_diagonal":
+            def g():
+                need_sq()
+                n = shape[-1]
+                if T.dim() == 0:
+                    return D + T * torch.eye(n, dtype=F64)
+                if T.shape[-1] not in (1, n):
+                    raise RuntimeError("diag length")
+                return D + torch.diag_embed(T.expand(*T.shape[:-1], n))
+            f = lambda: op.add_diagonal(T)
+        elif opname == "expand":
+            f, g = (lambda: op.expand(*T_shape)), (lambda: D.expand(*T_shape))
+        elif opname == "expand-size":
+            f, g = (lambda: op.expand(torch.Size(T_shape))), (lambda: D.expand(torch.Size(T_shape)))
+        elif opname == "getitem":
+            ix = mk_index(idx)
+            f, g = (lambda: op[ix]), (lambda: D[ix])
+        elif opname == "cat":
+            dim, oshapes = others
+            ops2 = [DenseLinearOperator(ones(s_)) for s_ in oshapes]
+            from linear_operator.operators.cat_linear_operator import cat as lo_cat
+            f = lambda: lo_cat([op] + ops2, dim=dim)
+            g = lambda: torch.cat([D] + [ones(s_) for s_ in oshapes], dim=dim)
+        else:
+            raise KeyError(opname)
+        with settings.debug(debug):
+            iv = verdict(f)
+        tv = verdict(g)
+        return iv, tv
+
+
+def model_line(cls_name, definers, opname, shape, T_shape, mro_def):
+    """Lean driver line predicting the guard's verdict, plus how to compare:
+    'full' (ok-shape / err must match the impl), 'okerr' (only ok vs raise), 'guard' (err ⇒ impl raises)."""
+    a = shp(shape)
+    if opname == "matmul":
+        return f"mmdef {definers[cls_name]} {a} {shp(T_shape)}", "full"
+    if opname == "matmul-Op" and mro_def(cls_name, "matmul") == "LinearOperator":
+        return f"mm base {a} {shp(T_shape)}", "full"
+    if opname == "solve":
+        d = mro_def(cls_name, "solve")
+        if d == "LinearOperator":
+            return f"solve {a} {shp(T_shape)}", "guard"
+        if d == "DiagLinearOperator":
+            return f"mm diagEw {a} {shp(T_shape)}", "full"
+        if d == "IdentityLinearOperator":
+            return f"mm identity {a} {shp(T_shape)}", "full"
+    if opname == "inv_quad" and mro_def(cls_name, "inv_quad") == "LinearOperator":
+        return f"invquad {a} {shp(T_shape)}", "okerr"
+    if opname == "iql-cg" and mro_def(cls_name, "inv_quad_logdet") == "LinearOperator":
+        return f"iql {a} {shp(T_shape)}", "guard"
+    if opname == "mul-T" and mro_def(cls_name, "mul") == "LinearOperator" and mro_def(cls_name, "__mul__") == "LinearOperator":
+        return f"mul {a} {shp(T_shape)}", "guard"
+    if opname == "add-T" and mro_def(cls_name, "__add__") == "LinearOperator":
+        return f"addT {a} {shp(T_shape)}", "full"
+    if opname == "add_diagonal" and mro_def(cls_name, "add_diagonal") == "LinearOperator":
+        return f"adddiag {a} {shp(T_shape)}", "full"
+    if opname == "expand":
+        if cls_name == "DenseLinearOperator":
+            return f"denseexpand {a} {shp(T_shape)}", "full"
+        return f"expandguard {a} {shp(T_shape)}", "guard"
+    return None, None
+
+
+def spec_line(opname, shape, T_shape):
+    """Lean Spec.* line that must reproduce torch's verdict on the dense tensor."""
+    a = shp(shape)
+    if opname in ("matmul",):
+        return f"torchmm {a} {shp(T_shape)}"
+    if opname == "rmatmul":
+        return f"torchmm {shp(T_shape)} {a}"
+    if opname == "solve":
+        return f"solvespec {a} {shp(T_shape)}"
+    if opname in ("add-T", "mul-T", "sub-T"):
+        return f"bc {a} {shp(T_shape)}"
+    if opname == "add_diagonal":
+        return f"adddiagspec {a} {shp(T_shape)}"
+    if opname == "expand":
+        return f"torchexpand {a} {shp(T_shape)}"
+    return None
+
+
+def fmt_verdict(v):
+    return f"ok {shp(v[1])}" if v[0] == "ok" and not (v[1] and v[1][0] == "inconsistent") else ("ok ?" if v[0] == "ok" else "err")
+
+
+BASELINE = os.path.join(os.path.dirname(os.path.dirname(os.path.dirname(os.path.abspath(__file__)))), "notes", "C19_strict_baseline.txt")
+
+
+def load_baseline():
+    if not os.path.exists(BASELINE):
+        return set()
+    return {ln.strip() for ln in open(BASELINE) if ln.strip() and not ln.startswith("#")}
+
+
+def class_name(op):
+    return type(op).__name__
+
+
+def gen_cases(chk, tier, collect=None):
+    """Runs every catalogue cell.  Returns list of records."""
+    import linear_operator.operators as O
+    ops_t, definers_l, overrides, base_guards = c19_guards.generate()
+    definers = dict(definers_l)
+
+    def mro_def(cls_name, meth):
+        cls = getattr(O, cls_name, None)
+        if cls is None:
+            from linear_operator.operators import kernel_linear_operator, permutation_linear_operator
+            cls = getattr(kernel_linear_operator, cls_name, None) or getattr(permutation_linear_operator, cls_name, None)
+        for k in cls.__mro__:
+            if meth in k.__dict__:
+                return k.__name__
+        return "?"
+    # dynamic cross-check of the translator against the run-time classes
+    for cname, d in definers_l:
+        cls = getattr(O, cname, None)
+        if cls is None:
+            continue
+        rt = next((k.__name__ for k in cls.__mro__ if "matmul" in k.__dict__), "?")
+        if rt != d:
+            chk.proof_break("translator(C19Guards)", f"matmul definer of {cname}: table {d}, run time {rt}")
+    for cname, m, _ in overrides:
+        cls = getattr(O, cname, None)
+        if cls is not None and m.split(":")[0] not in cls.__dict__:
+            chk.proof_break("translator(C19Guards)", f"{cname}.{m} in table but not defined at run time")
+    for cname in ops_t:
+        cls = getattr(O, cname, None)
+        if cls is None:
+            continue
+        for m in c19_guards.METHODS:
+            if m in cls.__dict__ and not any(c == cname and mm == m for c, mm, _ in overrides):
+                chk.proof_break("translator(C19Guards)", f"{cname}.{m} defined at run time but missing from the table")
+    runner = Runner(definers, mro_def)
+    recs = []
+    batches = [(), (2,)] if tier == "quick" else [(), (2,), (3,), (2, 1)]
+    sizes = [3] if tier == "quick" else [3, 4]
+    for n in sizes:
+        for b in batches:
+            if n == 4 and b not in ((), (2,)):
+                continue
+            for key, op in instances(chk.rng, b, n=n):
+                if isinstance(op, Exception):
+                    chk.proof_break("catalogue", f"cannot construct {key} b={b}: {op!r}")
+                    continue
+                D = op.to_dense().to(F64)
+                shape = tuple(op.shape)
+                cname = class_name(op)
+                tagb = f"b={shp(b)}" + ("" if n == 3 else f"|n={n}")
+                plan = []
+                for opname in MM_OPS:
+                    side = "left" if opname == "rmatmul" else "right"
+                    for kind, ts in matmul_kinds(shape, side):
+                        if opname == "matmul-Op" and len(ts) < 2:
+                            continue
+                        dbgs = (True, False) if opname in ("matmul", "matmul-Op", "solve") else (True,)
+                        for dbg in dbgs:
+                            plan.append((opname, kind, ts, dbg, None, None))
+                for opname in EW_OPS:
+                    for kind, ts in ew_kinds(shape):
+                        if opname.endswith("-Op") and len(ts) < 2:
+                            continue
+                        for dbg in ((True, False) if opname in ("add-T", "add-Op", "mul-Op") else (True,)):
+                            plan.append((opname, kind, ts, dbg, None, None))
+                for kind, ts in diag_kinds(shape):
+                    plan.append(("add_diagonal", kind, ts, True, None, None))
+                for kind, ts in expand_kinds(shape):
+                    plan.append(("expand", kind, ts, True, None, None))
+                    if all(x >= 0 for x in ts):
+                        plan.append(("expand-size", kind, ts, True, None, None))
+                # cat along every dim with a Dense partner of matching / mismatching shape
+                for dim in range(-len(shape), 0):
+                    good = list(shape); good[dim] = 2
+                    bad1 = list(good); bad1[(dim + 1) % len(shape) - len(shape) if len(shape) > 1 else dim] += 1
+                    dn = {-1: "col", -2: "row"}.get(dim, f"batch{len(shape) + dim}")
+                    for dbg in (True, False):
+                        plan.append(("cat", f"{dn}/ok", None, dbg, None, (dim, [tuple(good)])))
+                        plan.append(("cat", f"{dn}/other-dim-plus", None, dbg, None, (dim, [tuple(bad1)])))
+                        plan.append(("cat", f"{dn}/rank-plus", None, dbg, None, (dim, [(2,) + tuple(good)])))
+                for kind, idx in index_cases(shape):
+                    for dbg in (True, False):
+                        plan.append(("getitem", kind, None, dbg, idx, None))
+                for opname, kind, ts, dbg, idx, others in plan:
+                    cell = f"C19/{key}/{opname}/{kind}/{tagb}/debug={'on' if dbg else 'off'}"
+                    try:
+                        iv, tv = runner.run_case(op, D, opname, ts, dbg, idx=idx, others=others)
+                    except Exception as e:  # harness error
+                        chk.proof_break("harness", f"{cell}: {e!r}")
+                        continue
+                    ml, mode = (None, None)
+                    sl = None
+                    if ts is not None:
+                        ml, mode = model_line(cname, definers, opname, shape, ts, mro_def)
+                        sl = spec_line(opname, shape, ts) if dbg else None
+                    elif opname == "getitem" and kind.startswith("int/"):
+                        pos = next(i for i, x in enumerate(idx) if x != ":")
+                        sl = f"indexvalid {shape[pos]} {idx[pos]}"
+                        if dbg:
+                            ml, mode = f"range {shape[pos]} {idx[pos]}", "okerr"
+                    elif opname == "cat":
+                        dim, osh = others
+                        pd = dim + len(shape)
+                        sl = f"cat spec {pd} {shp(shape)} " + " ".join(shp(x) for x in osh)
+                        if dbg and cname != "DenseLinearOperator":
+                            ml, mode = f"cat impl {pd} {shp(shape)} " + " ".join(shp(x) for x in osh), "guard"
+                    recs.append({"cell": cell, "key": key, "cls": cname, "b": list(b), "n": n, "op": opname, "kind": kind, "shape": list(shape),
+                                 "operand": list(ts) if ts is not None else None, "idx": idx, "others": others, "debug": dbg,
+                                 "impl": iv, "torch": tv, "model_line": ml, "mode": mode, "spec_line": sl})
+    return recs
+
+
+def classify(chk, recs, outs, baseline, collect=None):
+    """Compare impl / torch / model for every record."""
+    li = 0
+    for r in recs:
+        mo = so = None
+        if r["model_line"]:
+            mo = outs[li]; li += 1
+        if r["spec_line"]:
+            so = outs[li]; li += 1
+        iv, tv = r["impl"], r["torch"]
+        cell = r["cell"]
+        desc = f"{cell} shape={r['shape']} operand={r['operand']} idx={r['idx']} others={r['others']}"
+        valid = tv[0] == "ok"
+        chk.case(desc, nontrivial=True)
+        chk.count("op:" + r["op"]); chk.count("class:" + r["key"]); chk.count("torch-accepts" if valid else "torch-rejects")
+        chk.count("impl-raises:" + iv[1] if iv[0] == "raise" else "impl-returns")
+        payload = {k: r[k] for k in ("key", "b", "n", "op", "kind", "operand", "idx", "others", "debug", "cell")}
+        # (0) Lean Spec.* reproduces torch (validates the spec of torch semantics)
+        if so is not None:
+            want = fmt_verdict(tv) if r["op"] not in ("getitem", "cat") else ("ok" if valid else "err")
+            got = so if not so.startswith("err") else "err"
+            if r["op"] in ("getitem",):
+                got = "ok" if so.startswith("ok") else "err"
+            if r["op"] == "cat":
+                got = "ok" if so.startswith("ok") else "err"
+                if valid and so != f"ok {shp(tv[1])}":
+                    got = so
+                    want = f"ok {shp(tv[1])}"
+            if got != want:
+                chk.proof_break("spec(" + r["spec_line"].split()[0] + ")", f"Lean spec says `{so}` but torch on the dense tensor says `{want}` for `{r['spec_line']}`")
+        # (1) the property: impl vs torch
+        viol = None
+        if not valid and iv[0] == "ok":
+            viol = f"accepted although torch rejects: returned shape {iv[1]}; torch raises {tv[1]}"
+        elif valid and iv[0] == "ok" and tuple(iv[1]) != tuple(tv[1]):
+            viol = f"returned shape {iv[1]} but torch produces {tv[1]}"
+        if viol:
+            if collect is not None:
+                collect.setdefault("viol", []).append(cell)
+            chk.violation(cell, f"{r['cls']} {r['op']} operator shape {tuple(r['shape'])} operand {r['operand'] if r['operand'] is not None else (r['idx'] or r['others'])} "
+                          f"debug={'on' if r['debug'] else 'off'}: {viol}", payload)
+            continue
+        # (2) correspondence with the Lean model of the guards
+        agree = True
+        if mo is not None:
+            m_ok = mo.startswith("ok")
+            if r["mode"] == "full":
+                if m_ok != (iv[0] == "ok") or (m_ok and iv[0] == "ok" and r["op"] not in ("add_diagonal",) and mo != fmt_verdict(iv)):
+                    agree = False
+            elif r["mode"] == "okerr":
+                if m_ok != (iv[0] == "ok"):
+                    agree = False
+            elif r["mode"] == "guard":
+                if not m_ok and iv[0] == "ok":
+                    agree = False
+            if not agree and iv[0] == "raise" and m_ok and cell in baseline:
+                agree = True   # the guard passed, the class's own code rejected (recorded at design time)
+            if not agree:
+                chk.corr_break(cell, f"Lean model `{r['model_line']}` → `{mo}` but the implementation: {iv}", payload)
+            else:
+                chk.traces_validated += 1
+        # (3) a torch-valid operand that is rejected: only allowed where the model's guard rejects it
+        #     or the unchanged library is known to (strict baseline)
+        if valid and iv[0] == "raise":
+            if collect is not None:
+                collect.setdefault("strict", []).append(cell)
+            explained = (mo is not None and not mo.startswith("ok")) or cell in baseline
+            if not explained:
+                chk.corr_break(cell, f"torch accepts (shape {tv[1]}) and the modelled guard accepts, but the implementation raises {iv[1]} "
+                               f"(a guard became stricter, or an inner step fails)", payload)
+
+
+def run(chk, collect=None):
+    chk.rule = ("fixed catalogue: one instance of every operator class (n=3, unbatched and batch (2,); thorough adds n=4, batch (3,), (2,1)) × "
+                "{matmul, rmatmul, solve, inv_quad, inv_quad_logdet (Cholesky and CG path), matmul by operator, + − * with tensor and operator, "
+                "add_diagonal, expand, cat, int/tensor indexing at every position} × shape kinds (valid; size-1 inner; wrong inner; 0-d; "
+                "non-broadcastable batch; extra/missing dims; index = size, size+1, −size−1) × settings.debug on/off; values are seed-random "
+                "integers, the verdict (raise / result shape) is compared with torch on the dense tensor and with the Lean guard model; "
+                "distinct = distinct cell × operand shape")
+    chk.assumptions += ["torch's verdict on the densified operator (cast to float64) is the specification",
+                        "an operator result that raises when first evaluated (lazy shape / to_dense) counts as a raise",
+                        "solve-type operations on non-PSD catalogue instances may raise for numerical reasons (NotPSDError); such raises are accepted"]
+    recs = gen_cases(chk, chk.tier, collect)
+    chk.prove("LinOp.Properties.C19", ["LinOp/C19", "LinOp/Generated/C19Guards.lean", "LinOp/Core/Parse.lean"])
+    lines = []
+    for r in recs:
+        if r["model_line"]:
+            lines.append(r["model_line"])
+        if r["spec_line"]:
+            lines.append(r["spec_line"])
+    outs = chk.run_driver("C19", lines)
+    if outs is None:
+        outs = ["bad-op"] * len(lines)
+    for ln, o in zip(lines, outs):
+        if o in ("bad-op", "unknown-definer"):
+            chk.proof_break("driver(C19)", f"`{ln}` → {o}")
+            break
+    classify(chk, recs, outs, load_baseline(), collect)
+
+
+def replay(chk, payload):
+    import random
+    pl = payload.get("payload") or {}
+    if "key" not in pl:
+        print("replay names broken obligations only:", json.dumps(pl)[:2000])
+        return run(chk)
+    from linear_operator import settings
+    ops_t, definers_l, overrides, base_guards = c19_guards.generate()
+    rng = random.Random(0)
+    op = dict(instances(rng, tuple(pl["b"]), n=pl.get("n", 3)))[pl["key"]]
+    D = op.to_dense().to(F64)
+    runner = Runner(dict(definers_l), None)
+    others = pl.get("others")
+    if others:
+        others = (others[0], [tuple(x) for x in others[1]])
+    iv, tv = runner.run_case(op, D, pl["op"], tuple(pl["operand"]) if pl.get("operand") is not None else None, pl["debug"],
+                             idx=pl.get("idx"), others=others)
+    chk.case(json.dumps(pl))
+    print(f"replay {pl['cell']}: impl {iv}  torch {tv}")
+    if (tv[0] == "raise" and iv[0] == "ok") or (tv[0] == "ok" and iv[0] == "ok" and tuple(iv[1]) != tuple(tv[1])):
+        chk.violation(pl["cell"], f"impl {iv} torch {tv}", pl)
+
+
+if __name__ == "__main__":
+    # development helper: python -m harness.checks.c19 --baseline  (writes notes/C19_strict_baseline.txt, prints violating cells)
+    from ..common import Check
+    allv, alls = set(), set()
+    for seed in range(int(sys.argv[2]) if len(sys.argv) > 2 else 3):
+        for tier in ("quick", "thorough"):
+            chk = Check("C19", tier, seed)
+            chk.findings = []
+            col = {}
+            run(chk, col)
+            allv |= set(col.get("viol", [])); alls |= set(col.get("strict", []))
+            print(seed, tier, len(col.get("viol", [])), len(col.get("strict", [])), chk.proof_breaks[:3], file=sys.stderr)
+    if "--baseline" in sys.argv:
+        with open(BASELINE, "w") as fh:
+            fh.write("# C19: cells where the UNCHANGED library raises although torch accepts the operand and the modelled guard passes\n"
+                     "# (unsupported operation, non-PSD catalogue instance, documented stricter contract, inner torch check).  Not a C19\n"
+                     "# violation; recorded at design time so that a guard that becomes stricter later is noticed.  Never written at run time.\n")
+            for c in sorted(alls):
+                fh.write(c + "\n")
+    with open("/tmp/c19x/violcells.txt", "w") as fh:
+        for c in sorted(allv):
+            fh.write(c + "\n")
